@@ -26,6 +26,15 @@ pub fn vf_vec_filter_map<A, B, F: Fn(A) -> Option<B>>(v: Vec<A>, f: F) -> (r: Ve
         forall|j: int| 0 <= j < r@.len() ==> exists|i: int| 0 <= i < v@.len() && call_ensures(f, (v@[i],), Some(#[trigger] r@[j])),
         forall|i: int| #![trigger v@[i]] 0 <= i < v@.len() && only_some(f, v@[i]) ==> exists|j: int| 0 <= j < r@.len() && call_ensures(f, (v@[i],), Some(r@[j])),
 { unimplemented!() }
+// v.into_iter().map_while(f).collect(): the Some-values of the longest prefix of v on which f yields Some (std semantics assumed);
+// stated: every result comes from some element (nothing is claimed about completeness: map_while stops at the first None)
+#[verifier::external_body]
+pub fn vf_vec_map_while<A, B, F: Fn(A) -> Option<B>>(v: Vec<A>, f: F) -> (r: Vec<B>)
+    requires forall|i: int| 0 <= i < v@.len() ==> call_requires(f, (#[trigger] v@[i],)),
+    ensures
+        r@.len() <= v@.len(),
+        forall|j: int| 0 <= j < r@.len() ==> call_ensures(f, (v@[j],), Some(#[trigger] r@[j])),
+{ unimplemented!() }
 pub open spec fn only_some<A, B, F: Fn(A) -> Option<B>>(f: F, x: A) -> bool { forall|o: Option<B>| call_ensures(f, (x,), o) ==> o.is_some() }
 pub uninterp spec fn script_hash_of(s: Script) -> Seq<u8>;
 impl Script {
